@@ -8,7 +8,7 @@ VARIABLE hist
 GenInit == Init /\ hist = <<obs>>
 GenNext == Next /\ hist' = Append(hist, obs')
 GenSpec == GenInit /\ [][GenNext]_<<vars, hist>>
-Skel == <<kind, holds, copyh, hascopy, extra, defer, made, cnt, alive>>
+Skel == <<kind, holds, copyh, hascopy, extra, defer, made, cnt, alive, snd, tries>>
 NoGapWalk == \A o \in Objs : cnt[o] <= Max \div 2 - 1 \/ cnt[o] >= Max - 1
 (* narrower exploration for the quick tier: counter pokes, plain-pointer references and deferred *)
 (* handles are not combined with an array copy, and only one object at a time is poked        *)
@@ -16,6 +16,7 @@ High(o) == cnt[o] >= Max - 1
 Narrow == /\ hascopy => \A o \in Objs : extra[o] = 0 /\ defer[o] = 0 /\ ~High(o)
           /\ Cardinality({o \in Objs : High(o)}) <= 1
           /\ \A o \in Objs : High(o) => defer[o] = 0
+          /\ \A o \in Objs : (tries[o] > 0 \/ ~snd[o]) => (~hascopy /\ extra[o] = 0)
 NarrowGap == NoGapWalk /\ Narrow
 Emit == PrintT(<<"BEHAV", ToJson(hist')>>)
 =============================================================================
